@@ -177,10 +177,13 @@ def jobs(tier):
     for nr, nc in shapes:
         for sm in MODES:
             for om in MODES:
-                for md_cfg in (('none', 'none'), ('both', 'none'), ('none', 'both'), ('both', 'both'), ('samp', 'obs')):
+                for md_cfg in (('none', 'none'), ('both', 'none'), ('none', 'both'), ('both', 'both'), ('samp', 'obs'),
+                               ('none', 'obs'), ('none', 'samp')):
                     for fk in ('default', 'custom', 'none'):
                         if fk == 'none' and not (sm == om == 'union'):
                             continue        # documented only as the fast-merge switch
+                        if tier == 'quick' and md_cfg in (('none', 'obs'), ('none', 'samp')) and (fk != 'default' or not (sm == om == 'union')):
+                            continue        # metadata on one axis of the other operand only: decides the path selection
                         if tier == 'quick' and fk == 'custom' and md_cfg in (('samp', 'obs'),):
                             continue
                         out.append(('merge', (nr, nc, sm, om, md_cfg, fk, 0 if tier == 'quick' else 1, tier == 'quick' and md_cfg != ('none', 'none'))))
